@@ -186,10 +186,17 @@ func DefClassMethod(obj slip.Class, name, daemon string, caller slip.Caller) sli
 	}
 	if addCombo {
 		// If there are supers that inherit from this flavor then insert
-		// the new method into the method combinations.
-		for _, ac := range slip.CurrentPackage.AllClasses() {
-			if ac.Inherits(obj) {
-				insertMethod(ac, obj, m, c)
+		// the new method into the method combinations. The inheriting
+		// classes are not always visible from the current package so all
+		// packages are searched. A class is registered in the packages
+		// that use its package as well, each class is updated once.
+		done := map[slip.Class]bool{}
+		for _, p := range slip.AllPackages() {
+			for _, ac := range p.AllClasses() {
+				if !done[ac] && ac.Inherits(obj) {
+					done[ac] = true
+					insertMethod(ac, obj, m, c)
+				}
 			}
 		}
 	}
